@@ -1010,6 +1010,11 @@ EXTRACTORS["C03"] = EXTRACTORS["C03"] + [gen_saiswidth]
 THEOREMS["SaisWidth"] = ["RbV.Thm.C03.sais_width_arms_fit", "RbV.Thm.C03.sais_reduced_width_fits",
                          "RbV.Thm.C03.sais_transform_width_fits"]
 
+# gensa: the suffix-array construction (C03) — dialect module tools/rs2lean_gensa.py; Thm/C03.lean imports RbV.Thm.GenSrcLcp (…)
+TRANSLATOR_MODULES.append("rs2lean_gensa")
+GEN_SRC.update({n: gen_src(n) for n in ("SrcLcp",)})
+EXTRACTORS["C03"] = EXTRACTORS["C03"] + [GEN_SRC[n] for n in ("SrcLcp",)]
+
 
 def main():
     ap = argparse.ArgumentParser()
